@@ -16,27 +16,14 @@ Section Clone.
 
   Local Notation vabs := (vabs cfg).
 
-  (* the loop of clone, named *)
-  Section Go.
-  Variables v w : nat.
-  Fixpoint clone_go (n : nat) (i : Z) : M unit :=
-    match n with
-    | O => ret tt
-    | S n =>
-        es <- deref cfg v ;;
-        match nth_error es (Z.to_nat i) with
-        | None => panic
-        | Some e => c <- clone_elem cfg e ;; push cfg ncap w c ;;; clone_go n (i + 1)
-        end
-    end.
-  End Go.
+  Local Notation clone_go := (clone_go cfg ncap).
 
   Lemma clone_vec_unfold v w :
     clone_vec cfg ncap v w =
     (d <- is_default v ;;
      if d then new_vec cfg w else
      new_vec cfg w ;;;
-     building cfg w (l <- len v ;; reserve cfg ncap w l ;;; clone_go v w (Z.to_nat l) 0)).
+     building cfg w (l <- len v ;; reserve cfg ncap w l ;;; l2 <- len v ;; clone_go v w (Z.to_nat l2) 0 l2)).
   Proof. reflexivity. Qed.
 
   (* consecutive identities *)
@@ -93,7 +80,10 @@ Section Clone.
     cl_vecs : vecs s' = vecs s;
     cl_len : List.length (heap s') = List.length (heap s) }.
 
-  Lemma clone_go_spec v w b bl bw : forall n i s0 s blw,
+  Lemma uadd_one a : 0 <= a -> a + 1 < W64 -> forall s, uadd cfg a 1 s = (Val (a + 1), s).
+  Proof. intros H0 H1 s. unfold uadd. assert (E : (a + 1 <? W64) = true) by (apply Z.ltb_lt; lia). rewrite E. reflexivity. Qed.
+
+  Lemma clone_go_spec v w b bl bw : forall n fuel i s0 s blw, (n <= fuel)%nat ->
     (* the source *)
     vec_at s v b bl -> block_ok cfg bl -> owned s bl ->
     (forall e, In e (velems bl) -> e < next_elem s0) ->
@@ -104,19 +94,24 @@ Section Clone.
     cloning s0 s (next_elem s0) (Z.to_nat i) (velems bl) 0 ->
     0 <= i -> i + Z.of_nat n = h_len bl -> h_len bl <= h_cap blw ->
     exists s' blw',
-      clone_go v w n i s = (Val tt, s') /\
+      clone_go v w fuel i (h_len bl) s = (Val tt, s') /\
       vec_at s' v b bl /\ vec_at s' w bw blw' /\ block_ok cfg blw' /\
       h_len blw' = h_len bl /\ velems blw' = zseq (next_elem s0) (Z.to_nat (h_len bl)) /\
       init_upto (slots blw') (h_len bl) /\
       cloning s0 s' (next_elem s0) (Z.to_nat (h_len bl)) (velems bl) 0 /\
       (forall b', b' <> bw -> nth_error (heap s') b' = nth_error (heap s) b').
   Proof.
-    induction n as [|n IH]; intros i s0 s blw Hv Hb Ho Hold Hnp Hw Hbw Hne Hli Hvel Hinit Hcl Hi0 Hin Hcap.
-    - simpl. exists s, blw. assert (Ei : i = h_len bl) by lia. rewrite Ei in *.
+    induction n as [|n IH]; intros fuel i s0 s blw Hfuel Hv Hb Ho Hold Hnp Hw Hbw Hne Hli Hvel Hinit Hcl Hi0 Hin Hcap.
+    - assert (Ei : i = h_len bl) by lia.
+      assert (Eg : clone_go v w fuel i (h_len bl) s = (Val tt, s)).
+      { destruct fuel; simpl; rewrite Ei, Z.ltb_irrefl; reflexivity. }
+      exists s, blw. rewrite Eg. rewrite Ei in *.
       split; [reflexivity|]. split; [exact Hv|]. split; [exact Hw|]. split; [exact Hbw|]. split; [exact Hli|].
       split; [exact Hvel|]. split; [exact Hinit|]. split; [exact Hcl|]. intros; reflexivity.
     - pose proof (bo_len _ _ Hb) as Hlen.
-      cbn [clone_go].
+      destruct fuel as [|fuel]; [lia|].
+      cbn [Machine.clone_go].
+      assert (Econd : (i <? h_len bl) = true) by (apply Z.ltb_lt; lia). rewrite Econd.
       rewrite (bind_val _ _ _ _ _ (deref_at cfg Hcfg s v b bl Hv Hb (ow_init _ _ Ho) (ow_nodup _ _ Ho)
                                      (fun e He => or_intror (ow_live _ _ Ho e He)))).
       assert (Hilt : i < h_len bl) by lia.
@@ -133,6 +128,7 @@ Section Clone.
       assert (Hw1 : vec_at s1 w bw blw) by (destruct Hw as [A B]; split; [rewrite Hv1; exact A|rewrite Hh1; exact B]).
       destruct (push_fits cfg ncap Hcfg s1 w bw blw c Hw1 Hbw ltac:(lia)) as (s2 & Hpush & Hw2 & Hfr & Hbw2 & Hvel2 & Hinit2).
       rewrite (bind_val _ _ _ _ _ Hpush).
+      rewrite (bind_val _ _ _ _ _ (uadd_one i Hi0 ltac:(pose proof (bo_cap _ _ Hbw); lia) s2)).
       set (blw2 := with_hdr (with_slots blw (upd (slots blw) (h_len blw) (Init c))) (h_len blw + 1) (h_cap blw) (h_align blw)) in *.
       assert (Hv2 : vec_at s2 v b bl).
       { destruct Hv as [A B]. split; [rewrite (fb_vecs _ _ _ Hfr), Hv1; exact A|].
@@ -166,7 +162,7 @@ Section Clone.
         - rewrite (fb_len _ _ _ Hfr), Hh1. exact C8. }
       assert (Hvelw2 : velems blw2 = zseq (next_elem s0) (Z.to_nat (i + 1))).
       { rewrite Hvel2, Hvel. replace (Z.to_nat (i + 1)) with (S (Z.to_nat i)) by lia. rewrite zseq_snoc. f_equal. f_equal. lia. }
-      destruct (IH (i + 1) s0 s2 blw2 Hv2 Hb Ho2 Hold Hnp2 Hw2 Hbw2 Hne ltac:(simpl; lia) Hvelw2
+      destruct (IH fuel (i + 1) s0 s2 blw2 ltac:(lia) Hv2 Hb Ho2 Hold Hnp2 Hw2 Hbw2 Hne ltac:(simpl; lia) Hvelw2
                    ltac:(rewrite <- Hli; apply Hinit2; rewrite Hli; exact Hinit) Hcl2 ltac:(lia) ltac:(lia) ltac:(simpl; exact Hcap))
         as (s' & blw' & Hgo & G1 & G2 & G3 & G4 & G5 & G6 & G7 & G8).
       exists s', blw'. split; [exact Hgo|]. repeat (split; [assumption|]).
@@ -266,7 +262,9 @@ Section Clone.
         assert (Hres : reserve cfg ncap w 0 s1 = (Val tt, s1)).
         { unfold reserve. destruct (sentinel_basics cfg s1 w H7) as (Hl1 & Hc1 & _).
           rewrite (bind_val _ _ _ _ _ Hc1), (bind_val _ _ _ _ _ Hl1). unfold add_m, add_u. cbv zeta. reflexivity. }
-        rewrite (bind_val _ _ _ _ _ Hres). change (Z.to_nat 0) with O. cbn [clone_go].
+        rewrite (bind_val _ _ _ _ _ Hres).
+        rewrite (bind_val _ _ _ _ _ (len_at cfg _ _ _ _ Hcfg Hv1 Hb)). rewrite E0.
+        change (Z.to_nat 0) with O. cbn [Machine.clone_go].
         assert (Hnil : l = []) by (apply length_zero_iff_nil; rewrite <- Hl; lia). simpl.
         rewrite Hnil. simpl.
         split; [rewrite <- Hnil; apply Hkeep; assumption|]. split; [left; split; [exact H7|reflexivity]|].
@@ -290,11 +288,12 @@ Section Clone.
         { destruct Ho1 as [A B C D]. constructor; auto; [intros e He; rewrite (se_ledger _ _ Hse); auto|intros e He; rewrite (se_next _ _ Hse); auto]. }
         assert (Hcl0 : cloning s2 s2 (next_elem s2) (Z.to_nat 0) (velems bl) 0).
         { constructor; auto; try lia; intros j Hj; simpl in Hj; lia. }
-        destruct (clone_go_spec v w b bl bw (Z.to_nat (h_len bl)) 0 s2 s2 nbl Hv2 Hb Ho2
+        destruct (clone_go_spec v w b bl bw (Z.to_nat (h_len bl)) (Z.to_nat (h_len bl)) 0 s2 s2 nbl ltac:(lia) Hv2 Hb Ho2
                     (ow_old _ _ Ho2)
                     ltac:(intros e He; rewrite (se_cp _ _ Hse), H5; apply Hnp; rewrite <- Hl; exact He)
                     Hw2 Hbn ltac:(lia) eq_refl eq_refl ltac:(intros i Hi; simpl in Hi; lia) Hcl0 ltac:(lia) ltac:(lia) ltac:(simpl; lia))
           as (s3 & blw & Hgo & G1 & G2 & G3 & G4 & G5 & G6 & G7 & G8).
+        rewrite (bind_val _ _ _ _ _ (len_at cfg _ _ _ _ Hcfg Hv2 Hb)).
         rewrite Hgo. simpl.
         assert (Hn2 : next_elem s2 = next_elem s) by (rewrite (se_next _ _ Hse); exact H4).
         assert (Hlen_l : Z.to_nat (h_len bl) = List.length l) by (rewrite <- Hl; lia).
